@@ -66,7 +66,9 @@ def configure(p, ctx):
             ctx.fail("C20:write-raised:%s" % exc_tag(r))
             return
         sub_time = S.project.time
-        n_abs = len(set(a for a in ctx.c(list(S.project.absence_time_list)) if 0 <= a < sub_time))
+        # absence steps that were really simulated, from the list given to the run (not from the project's own bookkeeping)
+        n_abs = len(set(a for a in ctx.c([p["sa0"], p["sa1"]]) if 0 <= a < sub_time))
+        completed = p["stage"] != "never" and all(int(t.state) == -1 for t in S.tasks)
         st = BaseSubProjectTask(file_path=path, name="sub", ID="t1")
         before = (st.default_work_amount, st.unit_timedelta, st.work_amount_progress_of_unit_step_time, st.remove_absence_time_list, st.remaining_work_amount)
         if p.get("twice") and int(S.project.status) == 1:
@@ -81,6 +83,8 @@ def configure(p, ctx):
             ctx.fail("C20:configure-raised:%s" % exc_tag(ret))
             return
         success = int(S.project.status) == 1
+        if completed and not success:
+            ctx.fail("C20:completed-sub-project-not-successful")
         if not success:
             ctx.cover("refused")
             if not wlist:
